@@ -251,7 +251,7 @@ Definition cbound (cfg : config) (cs : cstate) : option Z :=
   | TIdle => None
   | TSnap _ | TSort => Some (cs_ncand cs)
   | TSel _ tg => Some (tg + c_low cfg)
-  | TClose => Some (c_low cfg)
+  | TClose => Some (Z.max 0 (c_low cfg))
   end.
 
 Definition early (ph : tphase) : bool := match ph with TSnap _ | TSort => true | _ => false end.
